@@ -28,6 +28,7 @@ type SpecEnv struct {
 	fr    *Frame
 	pkg   *types.Package
 	depth int
+	cur   *State // inside old(): the state in which program locals are read
 }
 
 func (vc *VC) specEnvFor(fx *FuncCtx, st *State, fr *Frame) *SpecEnv {
@@ -227,6 +228,10 @@ func (e *SpecEnv) evalIdent(name string) (*SV, error) {
 	// program locals (loop invariants)
 	if e.fx != nil && e.fx.locals != nil {
 		if p, ok := e.fx.locals[name]; ok {
+			if e.cur != nil {
+				// inside old(): locals keep their current value, only the heap and the parameters are old
+				return &SV{V: e.cur.load(p), T: p.Elem, St: e.st}, nil
+			}
 			return &SV{Place: p, T: p.Elem}, nil
 		}
 	}
@@ -743,10 +748,20 @@ func (e *SpecEnv) evalCall(x *SX) (*SV, error) {
 			}
 			oe := *e
 			oe.st = e.old
+			if oe.cur == nil {
+				oe.cur = e.st
+			}
 			// parameters mean their entry values inside old()
 			oe.vars = map[string]*SV{}
 			for n, v := range e.vars {
 				oe.vars[n] = v
+			}
+			if e.fx != nil && e.fx.top {
+				for n, v := range e.vc.params {
+					if _, shadow := oe.vars[n]; !shadow {
+						oe.vars[n] = v
+					}
+				}
 			}
 			v, err := oe.eval(args[0])
 			if err != nil {
@@ -859,7 +874,7 @@ func (e *SpecEnv) applySpecFunc(sf *SpecFunc, args []*SX) (*SV, error) {
 	if e.depth > 40 {
 		return nil, fmt.Errorf("spec func %s: recursion too deep", sf.Name)
 	}
-	fenv := &SpecEnv{vc: e.vc, st: e.st, old: e.old, vars: map[string]*SV{}, pkg: e.pkg, depth: e.depth + 1}
+	fenv := &SpecEnv{vc: e.vc, st: e.st, old: e.old, vars: map[string]*SV{}, pkg: e.pkg, depth: e.depth + 1, cur: e.cur}
 	if p := e.vc.prog.TypesPkg[pkgDirToPath(sf.Pkg)]; p != nil && sf.Pkg != "" {
 		fenv.pkg = p
 	}
